@@ -151,6 +151,64 @@ def rule_bindings_table(chk, cases):
     chk.floor("C05.floor/descriptor-types", len(names), 21, "object kinds with a descriptor type")
 
 
+def rule_address_type(chk):
+    """The declared type of a BufferAddress / RWBufferAddress global in the HLSL text, read from generate_type_impl with the
+    context the real GenerateContext::new builds, under the module flags of the three HLSL configurations (DirectX; Vulkan
+    without buffer addresses; Vulkan with). The metadata describes such a global as a descriptor at a slot unless buffer
+    addresses are lowered (only then does assign_api_bindings hand it an inline-constant offset - C06.address-tables), so
+    the text must declare a (RW)ByteAddressBuffer in the first two and a 64-bit address only in the third."""
+    import interp as I
+    import bindmodel as BM
+    f = chk.facts
+    new = f.fn("new", "rssl_hlsl", self_ty="GenerateContext")
+    gti = chk.anchor("C05.anchor/hlsl/generate_type_impl", f.fn("generate_type_impl", "rssl_hlsl"), "hlsl generate_type_impl")
+    if not gti:
+        return
+    if not new:
+        chk.note("C05.address-type: GenerateContext::new not found; not decided")
+        return
+    ot = f.adt("ObjectType", "rssl_ir")
+    names = {v["name"] for v in (ot or {}).get("variants", [])}
+    bm = BM.BindModel(f)
+    configs = (("DirectX", False, False), ("Vulkan without buffer addresses", True, False), ("Vulkan with buffer addresses", True, True))
+    want = {"BufferAddress": "ByteAddressBuffer", "RWBufferAddress": "RWByteAddressBuffer", "ByteAddressBuffer": "ByteAddressBuffer", "RWByteAddressBuffer": "RWByteAddressBuffer"}
+    n = 0
+    for on in sorted(want):
+        if on not in names:
+            continue
+        t = bm._add(I.Enum("TypeLayer", "Object", {"0": I.Enum("ObjectType", on, {})}), ("object", on))
+        bad = None
+        for cname, vk, ba in configs:
+            ext = dict(bm.externs())
+            ext["NameMap::build"] = lambda a: I.Opaque("name map")
+            ip = I.Interp(f, max_depth=8, extern=ext)
+            mod = I.Enum("Module", None, {"type_registry": I.Opaque("type registry"),
+                                          "flags": I.Enum("ModuleFlags", None, {"requires_vk_binding": vk, "requires_buffer_address": ba, "assigned_api_slots": True})})
+            try:
+                ctx = ip.apply(new, [mod])
+                r = ip.apply(gti, [BM.tid(t), I.Enum("Declarator", "Empty"), False, ctx])
+            except I.Unknown as e:
+                chk.note("C05.address-type: generate_type_impl is not readable on %s (%s); not decided" % (on, str(e)[:80]))
+                return
+            got = None
+            try:
+                ids = r.fields["0"][0].fields["layout"].fields["0"].fields["identifiers"]
+                got = "::".join(x.fields["node"] for x in ids)
+            except (AttributeError, KeyError, TypeError, IndexError):
+                try:
+                    ids = r.fields["0"][0].fields["0"].fields["0"].fields["1"]
+                    got = "::".join(x.fields["0"] if "0" in x.fields else x.fields["node"] for x in ids)
+                except (AttributeError, KeyError, TypeError, IndexError):
+                    got = repr(r)[:80]
+            n += 1
+            exp = "uint64_t" if (ba and on.endswith("BufferAddress")) else want[on]
+            if got != exp and bad is None:
+                bad = "a %s global is declared `%s` for %s, where the metadata describes %s: the declaration must be `%s`" % (
+                    on, got, cname, "an inline 64-bit constant" if ba and on.endswith("BufferAddress") else "a descriptor at a binding slot", exp)
+        chk.ob("C05.address-type/" + on, bad is None, bad or "declared as the metadata describes it in the three HLSL configurations", where(gti), sample={"object": on})
+    chk.floor("C05.floor/address-type", n, 6, "object x configuration declarations read", where(gti))
+
+
 def run(chk):
     f = chk.facts
     tables = {}
@@ -161,6 +219,7 @@ def run(chk):
         rule_bindings_table(chk, cases)
     else:
         chk.note("C05: %s: the shape rules decide" % cases)
+    rule_address_type(chk)
     for crate, tgt in (("rssl_hlsl", "hlsl"), ("rssl_msl", "msl")):
         ab = chk.anchor("C05.anchor/%s/analyse_bindings" % tgt, f.fn("analyse_bindings", crate), "%s analyse_bindings" % tgt)
         if not ab or evaluated:
